@@ -5,7 +5,12 @@ import (
 	"go/ast"
 	"go/token"
 	"go/types"
+	"golang.org/x/tools/go/ssa"
+	"jsverif/internal/ssaeval"
+	"os"
+	"regexp"
 	"sort"
+	"strconv"
 	"strings"
 
 	"jsverif/internal/prog"
@@ -618,8 +623,13 @@ func (c *Ctx) ruleScanTrace() {
 			return false
 		}, nil)
 	}
+	if !down {
+		// not the classic `for i := len-1; i >= 0; i--`: decide on the abstract evaluation of the two tracers: on every
+		// path the frames handed to OccurredInFile are stack[len-1], stack[len-2], ... in this order
+		down = c.traceOrderByEvaluation()
+	}
 	if down {
-		r.Ok("C07-SCAN-TRACE", "innermost first", "the stack is walked from its top (len-1) down to 0", c.pos(g.Decl.Pos()))
+		r.Ok("C07-SCAN-TRACE", "innermost first", "the frames are emitted from the top of the stack (len-1) downwards", c.pos(g.Decl.Pos()))
 	} else {
 		r.Bad("C07-SCAN-TRACE", "innermost first", "the include trace is not emitted innermost first", c.pos(g.Decl.Pos()))
 	}
@@ -628,6 +638,57 @@ func (c *Ctx) ruleScanTrace() {
 	} else {
 		r.Bad("C07-SCAN-TRACE", "attached once", "a trace can be attached twice", c.pos(g.Decl.Pos()))
 	}
+}
+
+// traceOrderByEvaluation: Stack.AddIncludeTraceToError is evaluated abstractly (three rounds of the loop); the index
+// terms of the stack elements whose file is handed to OccurredInFile must start at or below len(stack)-1 and go
+// strictly downwards on every path.
+func (c *Ctx) traceOrderByEvaluation() bool {
+	f := c.P.LookupFunc("scanner", "Stack.AddIncludeTraceToError")
+	if f == nil {
+		return false
+	}
+	sf := c.P.SSAFunc(f)
+	if sf == nil {
+		return false
+	}
+	ev := c.newEval()
+	ev.MaxPaths = 2000
+	ev.WantCall = func(fn *ssa.Function) bool { return fn.Name() == "OccurredInFile" }
+	idxRe := regexp.MustCompile(`\[len\([^\[\]]*\)(\{([+-]\d+)\})?\]`)
+	n := 0
+	for _, o := range ev.Run(sf, []ssaeval.Value{ssaeval.Obj("s"), ssaeval.Obj("je")}) {
+		if o.Panics {
+			return false
+		}
+		want := int64(-1)
+		for _, e := range o.Events {
+			if e.Kind != "call" || len(e.Args) < 2 {
+				continue
+			}
+			m := idxRe.FindStringSubmatch(e.Args[1].Term())
+			if m == nil {
+				if os.Getenv("JSVERIF_DEBUG") == "trace" {
+					fmt.Println("no index in", e.Args[1].Term())
+				}
+				return false
+			}
+			k := int64(0)
+			if m[2] != "" {
+				k, _ = strconv.ParseInt(m[2], 10, 64)
+			}
+			// strictly downwards from the top; an iteration whose element matched no case of the type switch emits nothing
+			if k > want {
+				if os.Getenv("JSVERIF_DEBUG") == "trace" {
+					fmt.Println("index", k, "want", want, e.Args[1].Term())
+				}
+				return false
+			}
+			want = k - 1
+			n++
+		}
+	}
+	return n >= 3
 }
 
 // ---------- tracer memo ----------
